@@ -38,7 +38,8 @@ THEOREM_BACKED = ('animation_roundtrip / animation_track_retrievable / animation
                   'set_timestamps_twice_fails, frame_count_mismatch_fails, num_frames_consistent (API state machine); '
                   'decoded_frames_in_stream_order(_legacy/_v), att_descs_roundtrip, '
                   'track_retrievable_after_roundtrip(_v)_partial (sequential decoder model); witnesses '
-                  'num_components_narrowed_witness, frame_product_wraps_witness')
+                  'num_components_narrowed_witness, frame_product_wraps_witness; source_tableSizeClass_is_model '
+                  "(EncodeTable's size-class branch as compiled = model)")
 CORRESPONDENCE_ONLY = ('animations with deleted tracks (PointCloud::DeleteAttribute), without frames or timestamps, or with >= '
                        '256 components are outside the composed theorem and covered by correspondence + oracle only; the '
                        "half-step bound of quantized tracks is C04's (abstract rounding model, evaluated in exact rationals "
